@@ -164,7 +164,7 @@ def finish(ctx, results):
         for k, v in sigs.items():
             drift_sigs[k] = drift_sigs.get(k, 0) + v
         drift_first.update({k: v for k, v in first.items() if k not in drift_first})
-        for k in ("steps", "ok_steps"):
+        for k in ("steps", "ok_steps", "undefined_noop_on_empty"):
             ctx.cov[k] = ctx.cov.get(k, 0) + res["stats"].get(k, 0)
     for k, v in sorted(drift_sigs.items()):
         ctx.drift("%s count=%d first=%s" % (k, v, drift_first.get(json.dumps(json.loads(k), sort_keys=True), "")[:200]))
